@@ -851,7 +851,7 @@ def ctc_tags(c):
         if _nary(k['ast']):
             tags.add('nary')
         if _chainlen(k['ast']) >= 6:
-            tags.add('longchain')
+            tags.add('chain%d' % _chainlen(k['ast']))
     for f in c['model']['feats']:
         for a in f['attrs']:
             tags.add('attrval:' + a['val'].split(':')[0])
@@ -899,8 +899,8 @@ prop('C04', ['uvl-Type', 'uvl-FCard', 'uvl-Attr', 'uvl-Star', 'uvl-Abs', 'Ref-uv
 
 
 REF_FORMATS = {
-    'fide': dict(surface='Surface-fide', sources=['fide-Tree', 'fide-Ctc', 'fide-Abs', 'Ref-fide-Ctc3', 'Ref-fide-Chain', 'fide-Dup'], size=12,
-                 wanted=['longchain', 'dupctc', 'sameshapectc', 'mandatory', 'optional', 'or', 'alternative', 'abstract', 'multi-rel-parent', 'nary', 'op:NOT', 'op:AND',
+    'fide': dict(surface='Surface-fide', sources=['fide-Tree', 'fide-Ctc', 'fide-Abs', 'Ref-fide-Ctc3', 'Ref-fide-Chain', 'fide-Dup'], size=14,
+                 wanted=['chain6', 'chain7', 'chain10', 'chain12', 'dupctc', 'sameshapectc', 'mandatory', 'optional', 'or', 'alternative', 'abstract', 'multi-rel-parent', 'nary', 'op:NOT', 'op:AND',
                          'op:OR', 'op:IMPLIES', 'op:EQUIVALENCE', 'op:REQUIRES', 'op:EXCLUDES'],
                  ok=lambda m: True),
     'xml': dict(surface='Surface-xml', sources=['Ref-xml', 'Tree', 'Ref-xml-Wide'], size=10,
@@ -913,8 +913,8 @@ REF_FORMATS = {
                 wanted=['dupctc', 'sameshapectc', 'mandatory', 'optional', 'or', 'alternative', 'mutex', 'cardinality', 'multi-rel-parent', 'attr',
                         'op:NOT', 'op:AND', 'op:OR', 'op:IMPLIES', 'op:EQUIVALENCE', 'op:REQUIRES', 'op:EXCLUDES'],
                 ok=lambda m: True),
-    'glencoe': dict(surface='Surface-glencoe', sources=['Ref-glencoe-Ctc', 'glencoe-Tree', 'Ref-glencoe-Chain', 'glencoe-Dup'], size=12,
-                    wanted=['longchain', 'dupctc', 'sameshapectc', 'mandatory', 'optional', 'or', 'alternative', 'mutex', 'cardinality', 'op:NOT', 'op:AND', 'op:OR',
+    'glencoe': dict(surface='Surface-glencoe', sources=['Ref-glencoe-Ctc', 'glencoe-Tree', 'Ref-glencoe-Chain', 'glencoe-Dup'], size=14,
+                    wanted=['chain6', 'chain7', 'chain10', 'chain12', 'dupctc', 'sameshapectc', 'mandatory', 'optional', 'or', 'alternative', 'mutex', 'cardinality', 'op:NOT', 'op:AND', 'op:OR',
                             'op:XOR', 'op:IMPLIES', 'op:EQUIVALENCE', 'op:REQUIRES', 'op:EXCLUDES'],
                     ok=lambda m: len({c['name'] for c in m['ctcs']}) == len(m['ctcs'])),
 }
